@@ -19,10 +19,10 @@ rm -f tests/run/_cython_inline_*.pyx
 echo "== demo with the change (must fail)" >> "$log"
 /venv/bin/python "$demo" > "$out/demo_with.log" 2>&1; rc_with=$?
 echo "exit=$rc_with $(tail -1 "$out/demo_with.log")" | tee -a "$log"
-git stash -q
+git apply -R "$out/patch.diff" || { echo "cannot reverse patch"; exit 2; }
 echo "== demo without the change (must pass)" >> "$log"
 /venv/bin/python "$demo" > "$out/demo_without.log" 2>&1; rc_without=$?
 echo "exit=$rc_without $(tail -1 "$out/demo_without.log")" | tee -a "$log"
-git stash pop -q
+git apply "$out/patch.diff"
 cp "$demo" "$out/"; cp NOTES.md "$out/" 2>/dev/null
 if [ "$rc_with" != 0 ] && [ "$rc_without" = 0 ]; then echo "CONFIRMED $sid" | tee -a "$log"; else echo "NOT-CONFIRMED $sid" | tee -a "$log"; fi
